@@ -323,7 +323,12 @@ class Functional(Operator):
             `FunctionalRightVectorMult`.
         """
         if isinstance(other, Operator):
-            return FunctionalComp(self, other)
+            if other.domain.field == self.range:
+                return FunctionalComp(self, other)
+            else:
+                # Not a functional on ``other.domain``: the values lie in
+                # ``self.range``, not in the field of ``other.domain``
+                return OperatorComp(self, other)
         elif other in self.range:
             # Left multiplication is more efficient, so we can use this in the
             # case of linear functional.
